@@ -708,6 +708,11 @@ func init() {
 					}
 					emitAll(c, x, label, "degenerate", "", "")
 				}},
+				{Name: "constructed", N: len(allConstructed), Exhaustive: true, Run: func(c *Ctx, idx int) {
+					cv := allConstructed[idx]
+					c.Distinct("constructed|"+cv.Label, true)
+					emitAll(c, cv.Make(), "constructed "+cv.Label, "benign", "", "")
+				}},
 				{Name: "odd-numbers", N: len(oddNumberCases), Exhaustive: true, Run: func(c *Ctx, idx int) {
 					oc := oddNumberCases[idx]
 					p := oc.Kind.New()
